@@ -229,12 +229,13 @@ REACH = ["C14.count==census(v1)", "C14.count==census(v1B)", "C14.count==census(v
 
 
 def jobs(tier, seed):
-    from props.c01 import _shapes
+    from props.c01 import _shapes, flag_shards
     js = []
     for name, shapes in _shapes(tier).items():
-        js.append(Job("run.%s" % name, "props.c14:h_summary_run",
-                      {"shapes": shapes, "opts": {"stop": "sym", "dry_run": "sym"}},
-                      reach=REACH, min_paths=20, cost=5000, validate=100 if tier == "quick" else 1000))
+        for fname, fopts in flag_shards(tier):
+            js.append(Job("run.%s%s" % (name, fname), "props.c14:h_summary_run",
+                          {"shapes": shapes, "opts": fopts},
+                          reach=REACH[:4], min_paths=5, cost=5000, validate=100 if tier == "quick" else 300))
     js.append(Job("run.untested-outline", "props.c14:h_summary_run",
                   {"shapes": [F([S(1), O(1, [(2, [])])]), F([O(1, [(1, [])]), S(1)])],
                    "opts": {"stop": "sym", "out_dom": {"*": [0, 2]}}},
